@@ -365,3 +365,59 @@ Qed.
 (** The escrow is exactly backed after every history of transactions, re-entrant ones included. *)
 Theorem escrow_backed_with_reentry w tx : fresh w -> all_routside_ok w tx -> backed (rrun w tx).
 Proof. intros F Ho. apply g_backed. apply rrun_good; [apply fresh_good, F | exact Ho]. Qed.
+
+(** ** Nobody but the initiators is debited, re-entrant calls included (C04, C19) *)
+Lemma run_others ops : forall w a,
+  Forall (fun n => op_initiator n <> Some a) ops -> a <> self_addr w ->
+  nondecr w (run w ops) a /\ self_addr (run w ops) = self_addr w.
+Proof.
+  unfold run. induction ops as [|o r IH]; cbn [fold_left]; intros w a Hi Ha; [split; [apply nondecr_refl | reflexivity]|].
+  inversion Hi as [|? ? Hi1 Hi2]; subst. destruct (step_static w o) as (_ & Hs & _).
+  destruct (IH (fst (step w o)) a Hi2) as [A B]; [congruence|]. split; [|congruence].
+  eapply nondecr_trans; [apply step_others_nondecreasing; [exact Hi1 | exact Ha] | exact A].
+Qed.
+
+Lemma rdispatch_others ms : forall w i fail prog w' a,
+  rdispatch w i fail prog ms = Ok w' -> Forall (fun n => op_initiator n <> Some a) prog -> a <> self_addr w ->
+  nondecr w w' a.
+Proof.
+  induction ms as [|m r IH]; intros w i fail prog w' a H Hi Ha; [simpl in H; inv H; apply nondecr_refl|].
+  cbn [rdispatch] in H. step H; [discriminate|]. step H. rename x into w1.
+  pose proof (dispatch1_static _ _ _ Hb) as (_ & _ & _ & _ & _ & _ & _ & Hs & _).
+  eapply nondecr_trans; [eapply dispatch1_others; eassumption|].
+  destruct (to_hostile w m).
+  - destruct (run_others prog w1 a Hi) as [A B]; [congruence|].
+    eapply nondecr_trans; [exact A|]. eapply IH; [exact H | constructor | congruence].
+  - eapply IH; [exact H | exact Hi | congruence].
+Qed.
+
+Lemma enter_others w o w1 sender fs m fail a :
+  enter w o = Some (Ok (w1, sender, fs, m, fail)) -> op_initiator o <> Some a ->
+  nondecr w w1 a /\ self_addr w1 = self_addr w.
+Proof.
+  intros E Hi. destruct o; simpl in E; try discriminate; simpl in Hi; inversion E as [E']; clear E.
+  - step E'. inv E'. split; [|reflexivity]. unfold nondecr. simpl. splits; try (intros; lia); try tauto.
+    intros d. eapply pay_funds_others; [exact Hb | congruence].
+  - destruct (kind w token); try discriminate. step E'. inv E'. split; [|reflexivity].
+    unfold nondecr. simpl. splits; try (intros; lia); try tauto.
+    intros t. eapply cw20_move_others; [exact Hb | congruence].
+  - destruct (kind w coll); try discriminate. step E'. inv E'. split; [|reflexivity].
+    unfold nondecr. simpl. splits; try (intros; lia).
+    intros c k Ho. eapply nft_move_others; [exact Hb | congruence | exact Ho].
+Qed.
+
+Theorem rstep_others_nondecreasing w o prog a :
+  op_initiator o <> Some a -> Forall (fun n => op_initiator n <> Some a) prog -> a <> self_addr w ->
+  nondecr w (fst (rstep w o prog)) a.
+Proof.
+  intros Hi Hp Ha. unfold rstep. destruct (rtry_step w o prog) as [[w' out]|] eqn:H; [|apply nondecr_refl]. cbn [fst].
+  destruct (enter w o) as [r|] eqn:En.
+  - rewrite (rtry_step_enter _ _ _ _ En) in H. destruct r as [[[[[w1 sender] fs] m] fail]|]; [|discriminate].
+    destruct (enter_others _ _ _ _ _ _ _ _ En Hi) as [A Es].
+    unfold rrun_market in H. step H. destruct x as [s' out']. step H. inv H.
+    eapply nondecr_trans; [exact A|].
+    assert (E : nondecr w1 (set_market w1 s') a) by (unfold nondecr; simpl; splits; intros; try lia; assumption).
+    eapply nondecr_trans; [exact E|]. eapply rdispatch_others; [exact Hb0 | exact Hp | simpl; congruence].
+  - rewrite (rtry_step_other _ _ _ En) in H.
+    pose proof (step_others_nondecreasing w o a Hi Ha) as G. rewrite step_fst, H in G. exact G.
+Qed.
